@@ -122,7 +122,19 @@ func c12(x *Ctx) {
 			continue
 		}
 		seen[fn] = true
-		c.Decide(allowedReg[fn] && (!a.Write || fn != "createSampler"), "C12.registry-access", fn, x.Pos(a.Instr), "registry function", "the shared dynsampler registry is accessed from "+fn+", outside the factory's registry functions")
+		okFn := allowedReg[fn]
+		if !okFn {
+			// a private helper that is only ever called from the registry functions (an extracted part of one)
+			root := eng.Root(a.Fn)
+			callers := x.Callers(root)
+			okFn = len(callers) > 0 && root.Signature.Recv() != nil && !root.Object().Exported()
+			for _, e := range callers {
+				if !allowedReg[BaseName(eng.Root(e.Caller.Func))] || BaseName(eng.Root(e.Caller.Func)) == "createSampler" {
+					okFn = false
+				}
+			}
+		}
+		c.Decide(okFn && (!a.Write || fn != "createSampler"), "C12.registry-access", fn, x.Pos(a.Instr), "registry function", "the shared dynsampler registry is accessed from "+fn+", outside the factory's registry functions")
 	}
 	c.Min("C12.registry-access", 4)
 
@@ -459,7 +471,19 @@ func c13(x *Ctx) {
 	if up != nil {
 		const r = "C13.goal-shape"
 		n := 0
-		eng.Instrs(up, func(in ssa.Instruction) {
+		// the recomputation itself may sit in a private helper that updatePeerCounts calls (under its lock)
+		body := up
+		var bodyCall ssa.Instruction
+		if len(callsIn(up, "(sample.CanSetGoalThroughputPerSec).SetGoalThroughputPerSec")) == 0 {
+			eng.Instrs(up, func(in ssa.Instruction) {
+				if cl, ok := in.(*ssa.Call); ok {
+					if h := cl.Call.StaticCallee(); h != nil && h.Pkg == up.Pkg && len(h.Blocks) > 0 && len(callsIn(h, "(sample.CanSetGoalThroughputPerSec).SetGoalThroughputPerSec")) > 0 && bodyCall == nil {
+						body, bodyCall = h, in
+					}
+				}
+			})
+		}
+		eng.Instrs(body, func(in ssa.Instruction) {
 			cl, ok := eng.IsCall(in, "(sample.CanSetGoalThroughputPerSec).SetGoalThroughputPerSec")
 			if !ok {
 				return
@@ -497,7 +521,7 @@ func c13(x *Ctx) {
 		}
 		// iterates the whole registry
 		ranges := false
-		eng.Instrs(up, func(in ssa.Instruction) {
+		eng.Instrs(body, func(in ssa.Instruction) {
 			if rg, ok := in.(*ssa.Range); ok && loadsField(rg.X, eng.FieldIs("sample", "SamplerFactory", "sharedDynsamplers")) {
 				ranges = true
 			}
@@ -512,6 +536,9 @@ func c13(x *Ctx) {
 				rng = in
 			}
 		})
+		if rng == nil && bodyCall != nil {
+			rng = bodyCall // the call of the helper that walks the registry
+		}
 		if rng != nil {
 			c.Examined++
 			rr := eng.Explore(eng.Query{Fn: up, Classify: func(in ssa.Instruction, _ eng.Facts) eng.Event {
